@@ -51,6 +51,7 @@ import (
 	"io"
 	"math/big"
 	"net"
+	"sort"
 	"strconv"
 	"strings"
 	"sync"
@@ -65,20 +66,45 @@ import (
 // ---------------------------------------------------------------------------
 // in-memory TLS endpoint
 
-func selfSigned() (tls.Certificate, error) {
-	key, err := ecdsa.GenerateKey(elliptic.P256(), rand.Reader)
+// pki: a CA made at start-up and one leaf certificate per host name, each valid for its own name only.
+type pki struct {
+	roots *x509.CertPool
+	leaf  map[string]*tls.Certificate
+}
+
+func newPKI(names ...string) (*pki, error) {
+	caKey, err := ecdsa.GenerateKey(elliptic.P256(), rand.Reader)
 	if err != nil {
-		return tls.Certificate{}, err
+		return nil, err
 	}
-	tmpl := &x509.Certificate{SerialNumber: big.NewInt(21), Subject: pkix.Name{CommonName: "c21 fake network"},
-		NotBefore: time.Now().Add(-time.Hour), NotAfter: time.Now().Add(24 * time.Hour),
-		KeyUsage: x509.KeyUsageDigitalSignature, ExtKeyUsage: []x509.ExtKeyUsage{x509.ExtKeyUsageServerAuth},
-		DNSNames: []string{"a.test", "b.test"}}
-	der, err := x509.CreateCertificate(rand.Reader, tmpl, tmpl, &key.PublicKey, key)
+	caTmpl := &x509.Certificate{SerialNumber: big.NewInt(1), Subject: pkix.Name{CommonName: "c21 fake network CA"},
+		NotBefore: time.Now().Add(-time.Hour), NotAfter: time.Now().Add(48 * time.Hour), IsCA: true, BasicConstraintsValid: true,
+		KeyUsage: x509.KeyUsageCertSign | x509.KeyUsageDigitalSignature}
+	caDER, err := x509.CreateCertificate(rand.Reader, caTmpl, caTmpl, &caKey.PublicKey, caKey)
 	if err != nil {
-		return tls.Certificate{}, err
+		return nil, err
 	}
-	return tls.Certificate{Certificate: [][]byte{der}, PrivateKey: key}, nil
+	caCert, err := x509.ParseCertificate(caDER)
+	if err != nil {
+		return nil, err
+	}
+	p := &pki{roots: x509.NewCertPool(), leaf: map[string]*tls.Certificate{}}
+	p.roots.AddCert(caCert)
+	for i, name := range names {
+		key, err := ecdsa.GenerateKey(elliptic.P256(), rand.Reader)
+		if err != nil {
+			return nil, err
+		}
+		tmpl := &x509.Certificate{SerialNumber: big.NewInt(int64(100 + i)), Subject: pkix.Name{CommonName: name},
+			NotBefore: time.Now().Add(-time.Hour), NotAfter: time.Now().Add(24 * time.Hour),
+			KeyUsage: x509.KeyUsageDigitalSignature, ExtKeyUsage: []x509.ExtKeyUsage{x509.ExtKeyUsageServerAuth}, DNSNames: []string{name}}
+		der, err := x509.CreateCertificate(rand.Reader, tmpl, caCert, &key.PublicKey, caKey)
+		if err != nil {
+			return nil, err
+		}
+		p.leaf[name] = &tls.Certificate{Certificate: [][]byte{der}, PrivateKey: key}
+	}
+	return p, nil
 }
 
 type prefixConn struct {
@@ -186,6 +212,8 @@ type connLog struct {
 	First        string   `json:"first_raw_bytes"`
 	TLS          bool     `json:"tls"`
 	SNI          string   `json:"sni"`
+	HelloSeen    bool     `json:"client_hello_seen,omitempty"`
+	HoldTimeout  bool     `json:"barrier_timed_out,omitempty"`
 	HandshakeErr string   `json:"handshake_err,omitempty"`
 	Junk         string   `json:"unparseable,omitempty"`
 	Reqs         []reqLog `json:"requests"`
@@ -201,9 +229,18 @@ type chainHop struct {
 	Host   string `json:"host"`
 }
 
+type holdGroup struct {
+	need, got int
+	ch        chan struct{}
+}
+
 type tnet struct {
-	srvCfg *tls.Config
+	pki    *pki
 	mu     sync.Mutex
+	ends   []net.Conn // client ends handed to fasthttp (closed by the harness when the case is over)
+	holds  map[string]*holdGroup
+	failN  int // the next failN dial calls fail
+	failed []string
 	conns  []*connLog
 	chains map[string][]chainHop
 	ops    map[string]*op // fault and callback plans, by request id
@@ -213,10 +250,19 @@ type tnet struct {
 }
 
 func (n *tnet) dial(addr string) (net.Conn, error) {
+	n.mu.Lock()
+	if n.failN > 0 {
+		n.failN--
+		n.failed = append(n.failed, addr)
+		n.mu.Unlock()
+		return nil, errors.New("c21: injected dial failure for " + addr)
+	}
+	n.mu.Unlock()
 	c, s := newBufPipe(addr)
 	cl := &connLog{Dial: addr}
 	n.mu.Lock()
 	n.conns = append(n.conns, cl)
+	n.ends = append(n.ends, c)
 	n.mu.Unlock()
 	n.wg.Add(1)
 	go n.serve(cl, s)
@@ -253,13 +299,22 @@ func (n *tnet) serve(cl *connLog, s net.Conn) {
 				}
 			}
 		}()
-		tc := tls.Server(&prefixConn{Conn: s, r: tap}, n.srvCfg)
+		// the peer behind an address is that host: it presents the certificate of the dialled name, and notes
+		// the name the client asked for (also when the handshake then fails)
+		cfg := &tls.Config{MinVersion: tls.VersionTLS12, SessionTicketsDisabled: true,
+			GetCertificate: func(hello *tls.ClientHelloInfo) (*tls.Certificate, error) {
+				cl.SNI, cl.HelloSeen = hello.ServerName, true
+				if crt := n.pki.leaf[asciiLower(hostnameOf(cl.Dial))]; crt != nil {
+					return crt, nil
+				}
+				return nil, errors.New("c21: no certificate for " + cl.Dial)
+			}}
+		tc := tls.Server(&prefixConn{Conn: s, r: tap}, cfg)
 		if err := tc.Handshake(); err != nil {
 			cl.HandshakeErr = err.Error()
 			return
 		}
 		cl.TLS = true
-		cl.SNI = tc.ConnectionState().ServerName
 		rd, w = bufio.NewReaderSize(tc, 4096), tc
 		defer tc.Close()
 	} else {
@@ -294,6 +349,28 @@ func (n *tnet) serve(cl *connLog, s net.Conn) {
 					return
 				}
 				closeAfter = plan.CloseAfter
+				if plan.Hold != "" {
+					// barrier: answer only when the whole burst has arrived, so that all its connections are busy
+					// at once and then idle at once
+					n.mu.Lock()
+					g := n.holds[plan.Hold]
+					if g != nil {
+						g.got++
+						if g.got == g.need {
+							close(g.ch)
+						}
+					}
+					n.mu.Unlock()
+					if g != nil {
+						t := time.NewTimer(3 * time.Second)
+						select {
+						case <-g.ch:
+						case <-t.C:
+							cl.HoldTimeout = true
+						}
+						t.Stop()
+					}
+				}
 			}
 			if rl.Hop >= 0 && rl.Hop < len(chain) {
 				hp := chain[rl.Hop]
@@ -371,9 +448,13 @@ type op struct {
 	Max    int        `json:"max_redirects,omitempty"`
 	G      int        `json:"goroutine"`
 
-	Shape      string `json:"shape,omitempty"`       // "" absolute URL; host+path, scheme-rel (//host/path), colon-slash-slash (://host/path): no scheme
-	DropFirst  int    `json:"drop_first,omitempty"`  // the peer drops this many transmissions without answering
-	CloseAfter bool   `json:"close_after,omitempty"` // the peer closes the connection after answering (dead pooled conn for the next call)
+	Shape      string `json:"shape,omitempty"`            // "" absolute URL; host+path, scheme-rel (//host/path), colon-slash-slash (://host/path): no scheme
+	DropFirst  int    `json:"drop_first,omitempty"`       // the peer drops this many transmissions without answering
+	CloseAfter bool   `json:"close_after,omitempty"`      // the peer closes the connection after answering (dead pooled conn for the next call)
+	ConnClose  bool   `json:"connection_close,omitempty"` // the request carries Connection: close
+	Hold       string `json:"burst,omitempty"`            // the peer answers when all requests of the burst have arrived
+	FailDials  int    `json:"failing_dials,omitempty"`    // the next dial calls fail (multi-address fail-over)
+	pre        func()
 	Mut        string `json:"callback_edit,omitempty"`
 	CBCalls    int    `json:"callback_calls"`
 	Left       string `json:"scheme_left_by_callback,omitempty"` // req.URI().Scheme() at the end of the last callback
@@ -388,13 +469,18 @@ type hcSpec struct {
 }
 
 type tcase struct {
-	Mode string   `json:"mode"`              // client, hostclient, lbclient
-	CB   string   `json:"retry_callback"`    // RetryIf, RetryIfErr, RetryIfErrUpstream
-	WT   bool     `json:"write_timeout_set"` // WriteTimeout > 0: TLS handshake done eagerly at dial time (tlsClientHandshake)
-	RT   bool     `json:"read_timeout_set"`
-	HCs  []hcSpec `json:"host_clients,omitempty"`
-	G    int      `json:"goroutines"`
-	Ops  []*op    `json:"ops"`
+	Mode    string         `json:"mode"` // client, hostclient, lbclient, pool (Client + ConnPoolStrategy + bursts), multiaddr (TLS HostClient over several host names)
+	Pool    string         `json:"conn_pool_strategy,omitempty"`
+	Steps   [][]int        `json:"steps,omitempty"` // pool/multiaddr: the ops of one step run at once, the steps one after the other
+	Bursts  map[string]int `json:"bursts,omitempty"`
+	Verify  bool           `json:"verify_certificates"`
+	UnderLB bool           `json:"under_lbclient,omitempty"`
+	CB      string         `json:"retry_callback"`    // RetryIf, RetryIfErr, RetryIfErrUpstream
+	WT      bool           `json:"write_timeout_set"` // WriteTimeout > 0: TLS handshake done eagerly at dial time (tlsClientHandshake)
+	RT      bool           `json:"read_timeout_set"`
+	HCs     []hcSpec       `json:"host_clients,omitempty"`
+	G       int            `json:"goroutines"`
+	Ops     []*op          `json:"ops"`
 }
 
 type rng interface{ Intn(int) int }
@@ -454,11 +540,20 @@ func genOp(r rng, id string, hosts []string, redirectAPIs bool) *op {
 }
 
 func genCase(r rng, idx int) *tcase {
-	c := &tcase{Mode: pick(r, []string{"client", "client", "hostclient", "hostclient", "lbclient"})}
+	c := &tcase{Mode: pick(r, []string{"client", "client", "client", "hostclient", "hostclient", "hostclient", "lbclient", "lbclient", "pool", "multiaddr"})}
 	c.G = pick(r, []int{1, 1, 2, 3})
 	c.CB = pick(r, []string{"RetryIf", "RetryIfErr", "RetryIfErrUpstream"})
 	c.WT = r.Intn(2) == 0
 	c.RT = r.Intn(3) == 0
+	c.Verify = r.Intn(2) == 0
+	switch c.Mode {
+	case "pool":
+		genPool(r, idx, c)
+		return c
+	case "multiaddr":
+		genMultiAddr(r, idx, c)
+		return c
+	}
 	nops := 4 + r.Intn(10)
 	hosts := hostForms
 	switch c.Mode {
@@ -493,6 +588,91 @@ func genCase(r rng, idx int) *tcase {
 	return c
 }
 
+// genPool: one Client with ConnPoolStrategy LIFO or FIFO. Rounds of: a burst that leaves >= 2 connections of one
+// scheme idle at once; calls of that scheme whose connection ends closed (Connection: close, or closed by the
+// peer after the answer); calls of the SIBLING scheme for the same host name (new dials); calls of the first
+// scheme again. The steps run one after the other on one goroutine, so the pool hand-back order is fixed.
+func genPool(r rng, idx int, c *tcase) {
+	c.Pool = pick(r, []string{"LIFO", "LIFO", "FIFO"})
+	c.G = 1
+	c.Bursts = map[string]int{}
+	x := pick(r, hostForms)
+	s1 := pick(r, schemes)
+	k := 0
+	mk := func(scheme string) int {
+		o := &op{ID: fmt.Sprintf("%d-%d", idx, k), API: pick(r, []string{"Do", "Do", "DoTimeout"}), Scheme: scheme, Host: x, Method: pick(r, []string{"GET", "GET", "POST"})}
+		k++
+		c.Ops = append(c.Ops, o)
+		return len(c.Ops) - 1
+	}
+	other := func(s string) string {
+		if s == "https" {
+			return "http"
+		}
+		return "https"
+	}
+	// One plain call per scheme first: each HostClient starts its idle cleaner now, on an empty pool, and the
+	// cleaner then sleeps for MaxIdleConnDuration (90 s here), i.e. it stays out of the way of the steps below.
+	c.Steps = append(c.Steps, []int{mk(s1)}, []int{mk(other(s1))})
+	for round := 0; round < 2+r.Intn(3); round++ {
+		nb := 2 + r.Intn(2)
+		grp := fmt.Sprintf("%d-burst%d", idx, round)
+		c.Bursts[grp] = nb
+		var step []int
+		for j := 0; j < nb; j++ {
+			i := mk(s1)
+			c.Ops[i].Hold = grp
+			step = append(step, i)
+		}
+		c.Steps = append(c.Steps, step)
+		for j := 0; j < 1+r.Intn(2); j++ {
+			i := mk(s1)
+			if r.Intn(3) != 0 {
+				c.Ops[i].ConnClose = true
+			} else {
+				c.Ops[i].CloseAfter = true
+			}
+			c.Steps = append(c.Steps, []int{i})
+		}
+		for j := 0; j < 1+r.Intn(2); j++ {
+			i := mk(other(s1))
+			c.Ops[i].ConnClose = r.Intn(3) == 0
+			c.Steps = append(c.Steps, []int{i})
+		}
+		for j := 0; j < 1+r.Intn(2); j++ {
+			c.Steps = append(c.Steps, []int{mk(s1)})
+		}
+		if r.Intn(2) == 0 {
+			s1 = other(s1)
+		}
+	}
+}
+
+// genMultiAddr: one HostClient{IsTLS: true} whose Addr lists several DIFFERENT host names, certificate
+// verification on, no fixed ServerName; some dial calls fail so that dialing falls over to the next address.
+func genMultiAddr(r rng, idx int, c *tcase) {
+	c.G = 1
+	c.Verify = true
+	c.UnderLB = r.Intn(3) == 0
+	port := pick(r, []string{":443", ":443", ":9000"})
+	names := pick(r, [][]string{{"a.test", "b.test"}, {"b.test", "a.test"}, {"a.test", "b.test", "a.test"}, {"b.test", "b.test", "a.test"}})
+	var addrs []string
+	for _, nm := range names {
+		addrs = append(addrs, nm+port)
+	}
+	c.HCs = []hcSpec{{Addr: strings.Join(addrs, ","), IsTLS: true}}
+	for k := 0; k < 5+r.Intn(8); k++ {
+		h := pick(r, names)
+		if port != ":443" {
+			h += port
+		}
+		o := &op{ID: fmt.Sprintf("%d-%d", idx, k), API: pick(r, []string{"Do", "DoTimeout", "DoDeadline"}), Scheme: "https", Host: h,
+			Method: pick(r, []string{"GET", "GET", "PUT"}), ConnClose: r.Intn(3) != 0, FailDials: pick(r, []int{0, 0, 1, 1, 1, 2})}
+		c.Ops = append(c.Ops, o)
+		c.Steps = append(c.Steps, []int{k})
+	}
+}
+
 // effSchemes returns the scheme of every URL of the op's chain (index 0: the initial URL).
 func effSchemes(o *op) []string {
 	out := []string{o.Scheme}
@@ -519,6 +699,9 @@ type redirector interface {
 }
 
 func runOp(d doer, o *op) {
+	if o.pre != nil {
+		o.pre()
+	}
 	url := o.Scheme + "://" + o.Host + target(o.ID, 0, o.Scheme, o.Host)
 	var err error
 	switch o.API {
@@ -542,6 +725,9 @@ func runOp(d doer, o *op) {
 		}
 		req.Header.SetMethod(o.Method)
 		req.Header.Set("X-Req-Id", o.ID)
+		if o.ConnClose {
+			req.SetConnectionClose()
+		}
 		if o.Method != "GET" {
 			req.SetBodyString("payload " + o.ID)
 		}
@@ -565,16 +751,24 @@ func runOp(d doer, o *op) {
 }
 
 type outcome struct {
-	Conns []*connLog `json:"connections"`
-	Panic string     `json:"panic,omitempty"`
-	Hung  bool       `json:"hung,omitempty"`
+	Conns       []*connLog `json:"connections"`
+	FailedDials []string   `json:"failed_dials,omitempty"`
+	Panic       string     `json:"panic,omitempty"`
+	Hung        bool       `json:"hung,omitempty"`
 }
 
-func runCase(c *tcase, srvCfg *tls.Config) (out outcome) {
-	n := &tnet{srvCfg: srvCfg, chains: map[string][]chainHop{}, ops: map[string]*op{}, seenN: map[string]int{}}
+func runCase(c *tcase, pk *pki) (out outcome) {
+	n := &tnet{pki: pk, chains: map[string][]chainHop{}, ops: map[string]*op{}, seenN: map[string]int{}, holds: map[string]*holdGroup{}}
 	for _, o := range c.Ops {
 		n.chains[o.ID] = o.Chain
 		n.ops[o.ID] = o
+		if c.Mode == "multiaddr" {
+			k := o.FailDials
+			o.pre = func() { n.mu.Lock(); n.failN = k; n.mu.Unlock() }
+		}
+	}
+	for g, need := range c.Bursts {
+		n.holds[g] = &holdGroup{need: need, ch: make(chan struct{})}
 	}
 	var retryIf fasthttp.RetryIfFunc
 	var retryIfErr fasthttp.RetryIfErrFunc
@@ -588,7 +782,13 @@ func runCase(c *tcase, srvCfg *tls.Config) (out outcome) {
 		retryUp = func(req *fasthttp.Request, _ int, _ error, _ string) (bool, bool) { return false, n.onRetry(req) }
 	}
 	cliCfg := &tls.Config{InsecureSkipVerify: true}
-	const idle = 50 * time.Millisecond
+	if c.Verify {
+		cliCfg = &tls.Config{RootCAs: pk.roots} // no ServerName: fasthttp derives it from the address it dials
+	}
+	idle := 50 * time.Millisecond
+	if c.Mode == "pool" {
+		idle = 90 * time.Second // the idle cleaner must not touch the pool while the case runs
+	}
 	var wt, rt time.Duration // large: nothing is ever waited for, they only select code paths
 	if c.WT {
 		wt = 10 * time.Minute
@@ -599,8 +799,12 @@ func runCase(c *tcase, srvCfg *tls.Config) (out outcome) {
 	var d doer
 	var closers []func()
 	switch c.Mode {
-	case "client":
-		cl := &fasthttp.Client{Dial: n.dial, TLSConfig: cliCfg, MaxIdleConnDuration: idle, ReadBufferSize: 2048, WriteBufferSize: 2048,
+	case "client", "pool":
+		strategy := fasthttp.FIFO
+		if c.Pool == "LIFO" {
+			strategy = fasthttp.LIFO
+		}
+		cl := &fasthttp.Client{ConnPoolStrategy: strategy, Dial: n.dial, TLSConfig: cliCfg, MaxIdleConnDuration: idle, ReadBufferSize: 2048, WriteBufferSize: 2048,
 			RetryIf: retryIf, RetryIfErr: retryIfErr, RetryIfErrUpstream: retryUp, WriteTimeout: wt, ReadTimeout: rt}
 		d = cl
 		closers = append(closers, cl.CloseIdleConnections)
@@ -613,7 +817,7 @@ func runCase(c *tcase, srvCfg *tls.Config) (out outcome) {
 			hcs = append(hcs, hc)
 			closers = append(closers, hc.CloseIdleConnections)
 		}
-		if c.Mode == "hostclient" {
+		if c.Mode == "hostclient" || (c.Mode == "multiaddr" && !c.UnderLB) {
 			d = hcs[0]
 		} else {
 			lb := &fasthttp.LBClient{Timeout: time.Minute}
@@ -628,7 +832,29 @@ func runCase(c *tcase, srvCfg *tls.Config) (out outcome) {
 	go func() {
 		defer close(finished)
 		var wg sync.WaitGroup
-		for g := 0; g < c.G; g++ {
+		guarded := func(o *op) {
+			defer func() {
+				if p := recover(); p != nil {
+					pmu.Lock()
+					out.Panic = fmt.Sprint(p)
+					pmu.Unlock()
+				}
+			}()
+			runOp(d, o)
+		}
+		for _, step := range c.Steps {
+			if len(step) == 1 {
+				guarded(c.Ops[step[0]]) // on this goroutine: sequential, deterministic pool hand-back
+				continue
+			}
+			var sw sync.WaitGroup
+			for _, i := range step {
+				sw.Add(1)
+				go func(o *op) { defer sw.Done(); guarded(o) }(c.Ops[i])
+			}
+			sw.Wait()
+		}
+		for g := 0; g < c.G && len(c.Steps) == 0; g++ {
 			wg.Add(1)
 			go func(g int) {
 				defer wg.Done()
@@ -647,8 +873,31 @@ func runCase(c *tcase, srvCfg *tls.Config) (out outcome) {
 			}(g)
 		}
 		wg.Wait()
-		for _, f := range closers {
-			f()
+		// A panic in here is recorded and the closing repeated: every HostClient's idle list has to be
+		// emptied, or its background cleaner would later trip over the same entry outside any recover.
+		for try, again := 0, true; again && try < 8; try++ {
+			again = false
+			for _, f := range closers {
+				func() {
+					defer func() {
+						if p := recover(); p != nil {
+							again = true
+							pmu.Lock()
+							out.Panic = "in CloseIdleConnections: " + fmt.Sprint(p)
+							pmu.Unlock()
+						}
+					}()
+					f()
+				}()
+			}
+		}
+		// whatever the client still holds open (a pooled connection it lost track of, for instance) is closed
+		// by the harness, so that every peer goroutine ends
+		n.mu.Lock()
+		ends := append([]net.Conn(nil), n.ends...)
+		n.mu.Unlock()
+		for _, e := range ends {
+			e.Close()
 		}
 		n.wg.Wait()
 	}()
@@ -661,6 +910,7 @@ func runCase(c *tcase, srvCfg *tls.Config) (out outcome) {
 	}
 	n.mu.Lock()
 	out.Conns = n.conns
+	out.FailedDials = n.failed
 	n.mu.Unlock()
 	return out
 }
@@ -689,7 +939,7 @@ func hostnameOf(hostport string) string {
 
 func judge(c *tcase, out outcome, ev func(string, int)) (vs []violation) {
 	if out.Panic != "" {
-		return []violation{{"panic", "panic inside a client call: " + out.Panic}}
+		vs = append(vs, violation{"panic:" + c.Mode, "panic inside a client call: " + out.Panic})
 	}
 	ops := map[string]*op{}
 	for _, o := range c.Ops {
@@ -713,10 +963,21 @@ func judge(c *tcase, out outcome, ev func(string, int)) (vs []violation) {
 		}
 	}
 	for _, cl := range out.Conns {
+		if cl.HelloSeen {
+			// the name asked for in the ClientHello, also of handshakes that then failed
+			if sni, dh := asciiLower(cl.SNI), asciiLower(hostnameOf(cl.Dial)); sni != dh {
+				vs = append(vs, violation{"tls-sni-not-dialled-host:" + c.Mode, fmt.Sprintf("ClientHello on the connection dialled to %q asks for server name %q (handshake completed: %v, error: %q)", cl.Dial, cl.SNI, cl.TLS, cl.HandshakeErr)})
+			} else {
+				ev("client_hellos_naming_the_dialled_host", 1)
+			}
+		}
+		if cl.HoldTimeout {
+			ev("burst_barrier_timeouts", 1)
+		}
 		if cl.TLS {
 			ev("tls_sessions", 1)
-			if sni, dh := asciiLower(cl.SNI), asciiLower(hostnameOf(cl.Dial)); sni != dh {
-				vs = append(vs, violation{"tls-sni-not-dialled-host", fmt.Sprintf("TLS session on the connection dialled to %q has SNI %q", cl.Dial, cl.SNI)})
+			if c.Verify {
+				ev("tls_sessions_with_certificate_verification", 1)
 			}
 		} else if len(cl.Reqs) > 0 {
 			ev("plaintext_connections", 1)
@@ -744,9 +1005,14 @@ func judge(c *tcase, out outcome, ev func(string, int)) (vs []violation) {
 			ev("unparseable_heads", 1)
 		}
 		for _, rq := range cl.Reqs {
-			o := ops[rq.ID]
-			if o == nil || rq.Hop < 0 {
+			if rq.Hop < 0 {
 				ev("unmarked_requests", 1)
+				continue
+			}
+			o := ops[rq.ID]
+			if o == nil {
+				// a request of some other client instance: a connection (wrapper) changed hands
+				vs = append(vs, violation{"foreign-request-on-connection:" + c.Mode, fmt.Sprintf("request %s.%d (%s %s) does not belong to this case, yet arrived on its connection dialled to %q (tls=%v)", rq.ID, rq.Hop, rq.Method, rq.Target, cl.Dial, cl.TLS)})
 				continue
 			}
 			seenAt[key{rq.ID, rq.Hop}] = true
@@ -808,6 +1074,20 @@ func judge(c *tcase, out outcome, ev func(string, int)) (vs []violation) {
 			}
 		}
 	}
+	ev("dial_failures_injected", len(out.FailedDials))
+	for g := range c.Bursts {
+		on := map[*connLog]bool{}
+		for _, cl := range out.Conns {
+			for _, rq := range cl.Reqs {
+				if o := ops[rq.ID]; o != nil && o.Hold == g {
+					on[cl] = true
+				}
+			}
+		}
+		if len(on) >= 2 {
+			ev("bursts_leaving_two_or_more_connections_idle", 1)
+		}
+	}
 	for _, o := range c.Ops {
 		es := effSchemes(o)
 		edited := o.CBCalls > 0 && o.Mut != "" && o.Left != ""
@@ -841,7 +1121,17 @@ func judge(c *tcase, out outcome, ev func(string, int)) (vs []violation) {
 			ev("schemeless_calls", 1)
 		}
 		switch c.Mode {
-		case "client":
+		case "multiaddr":
+			if o.err == nil {
+				ev("multiaddr_calls_ok", 1)
+				if o.FailDials > 0 {
+					ev("multiaddr_calls_ok_after_failed_dials", 1)
+				}
+			}
+		case "client", "pool":
+			if c.Mode == "pool" && o.err == nil {
+				ev("pool_calls_ok", 1)
+			}
 			if errors.Is(o.err, fasthttp.ErrHostClientRedirectToDifferentScheme) && !edited {
 				vs = append(vs, violation{"client-routed-request-to-hostclient-of-other-scheme", fmt.Sprintf("Client.%s(%s://%s …) returned %q", o.API, o.Scheme, o.Host, o.Err)})
 			}
@@ -899,19 +1189,26 @@ func judge(c *tcase, out outcome, ev func(string, int)) (vs []violation) {
 
 func classOf(c *tcase) string {
 	var b strings.Builder
-	fmt.Fprintf(&b, "%s|g=%d|%v|wt=%v rt=%v", c.Mode, c.G, c.HCs, c.WT, c.RT)
+	fmt.Fprintf(&b, "%s|g=%d|%v|wt=%v rt=%v|%s v=%v lb=%v", c.Mode, c.G, c.HCs, c.WT, c.RT, c.Pool, c.Verify, c.UnderLB)
 	for i, o := range c.Ops {
 		if i == 6 {
 			break
 		}
-		fmt.Fprintf(&b, "|%s %s %v %s d%d %s", o.API, o.Host, effSchemes(o), o.Shape, o.DropFirst, o.Mut)
+		fmt.Fprintf(&b, "|%s %s %v %s d%d %s c%v%v f%d", o.API, o.Host, effSchemes(o), o.Shape, o.DropFirst, o.Mut, o.ConnClose, o.Hold != "", o.FailDials)
 	}
 	return b.String()
 }
 
 func nontrivial(c *tcase) bool {
 	switch c.Mode {
-	case "client":
+	case "multiaddr":
+		for _, o := range c.Ops {
+			if o.FailDials > 0 {
+				return true
+			}
+		}
+		return false
+	case "client", "pool":
 		// the same host name is used with both schemes
 		seen := map[string]map[string]bool{}
 		for _, o := range c.Ops {
@@ -969,33 +1266,39 @@ func (m *mix) Intn(n int) int {
 func TestC21(t *testing.T) {
 	r := mon.Start(t, "C21")
 	defer r.Finish()
-	cert, err := selfSigned()
+	pk, err := newPKI("a.test", "b.test")
 	if err != nil {
-		t.Fatalf("harness: cannot generate the self-signed certificate: %v", err)
+		t.Fatalf("harness: cannot generate the certificates: %v", err)
 	}
-	srvCfg := &tls.Config{Certificates: []tls.Certificate{cert}, MinVersion: tls.VersionTLS12, SessionTicketsDisabled: true}
 
-	r.Rule("case = one Client, one HostClient{IsTLS random} or one LBClient over 2-3 HostClients with both IsTLS values, WriteTimeout/ReadTimeout set (large) or not - WriteTimeout > 0 selects the eager TLS handshake at dial time -, and 4-13 calls spread over 1-3 goroutines; each call picks a scheme (http/https) and a host form (a.test, b.test, a.test:9000, b.test:9000 - the explicit port is dialled for both schemes), an API (Do, DoTimeout, DoDeadline, DoRedirects, Get, Post) and, for the redirect APIs, a chain of 0-4 hops (301/302/303/307/308; absolute, scheme-relative or path Location) whose scheme and host vary per hop; direct calls additionally draw a request shape without scheme (Host+path, //host/path, ://host/path), a peer fault (first 1-2 transmissions dropped without an answer, connection closed after the answer = dead pooled connection) and an edit made by the case's retry callback (RetryIf, RetryIfErr or RetryIfErrUpstream) on the live request between attempts (SetScheme https/http, accessors + relative SetRequestURI, accessors only - Request.RequestURI() alone already drops the scheme); distinct = (mode, goroutines, HostClient specs, first six calls as api+host+scheme sequence); non-trivial = (Client) one host name is used with both schemes, (HostClient/LBClient) some URL has the scheme the HostClient is not configured for")
+	r.Rule("case = one Client, one HostClient{IsTLS random}, one LBClient over 2-3 HostClients with both IsTLS values, a 'pool' case (one Client with ConnPoolStrategy LIFO or FIFO driven on one goroutine through rounds of: a burst held by the peer until all of it arrived - two or three connections idle at once -, calls of that scheme whose connection ends closed by Connection: close or by the peer, calls of the sibling scheme for the same host name, calls of the first scheme again) or a 'multiaddr' case (HostClient{IsTLS:true}, alone or under an LBClient, whose Addr lists a.test and b.test, certificate verification on, no fixed ServerName, with 0-2 failing dial calls before a call so that dialing falls over to the next address; each peer presents a certificate valid for its own name only and notes the name asked for in the ClientHello); half of the other cases verify certificates as well; WriteTimeout/ReadTimeout set (large) or not - WriteTimeout > 0 selects the eager TLS handshake at dial time -, and 4-13 calls spread over 1-3 goroutines; each call picks a scheme (http/https) and a host form (a.test, b.test, a.test:9000, b.test:9000 - the explicit port is dialled for both schemes), an API (Do, DoTimeout, DoDeadline, DoRedirects, Get, Post) and, for the redirect APIs, a chain of 0-4 hops (301/302/303/307/308; absolute, scheme-relative or path Location) whose scheme and host vary per hop; direct calls additionally draw a request shape without scheme (Host+path, //host/path, ://host/path), a peer fault (first 1-2 transmissions dropped without an answer, connection closed after the answer = dead pooled connection) and an edit made by the case's retry callback (RetryIf, RetryIfErr or RetryIfErrUpstream) on the live request between attempts (SetScheme https/http, accessors + relative SetRequestURI, accessors only - Request.RequestURI() alone already drops the scheme); distinct = (mode, goroutines, HostClient specs, first six calls as api+host+scheme sequence); non-trivial = (Client) one host name is used with both schemes, (HostClient/LBClient) some URL has the scheme the HostClient is not configured for")
 	r.Assume("the scheme of a request is the scheme of the URL the caller or the redirecting peer wrote; it travels in the request path and is read back by the raw peer")
-	r.Assume("TLS is recognised on the raw connection by the record header 0x16 0x03 of the first bytes and then checked per record (type 0x14-0x17, version 0x03 0x00-0x04, length <= 18432) for every later client byte; the handshake is completed by crypto/tls with a self-signed certificate (client: InsecureSkipVerify)")
+	r.Assume("TLS is recognised on the raw connection by the record header 0x16 0x03 of the first bytes and then checked per record (type 0x14-0x17, version 0x03 0x00-0x04, length <= 18432) for every later client byte; the handshake is completed by crypto/tls; the peer behind an address presents a certificate (issued by a CA made at start-up) for the dialled host name only, the client verifies it in half of the cases and always in the multi-address cases")
 	r.Assume("a request without an explicit scheme (Host header + path, //host/path, ://host/path; marker 'none') is an http request, as URI.Scheme() says: it must stay off TLS connections and a HostClient{IsTLS:true} must refuse it")
 	r.Assume("the retry callback edits the live request between attempts and rewrites the path marker to the scheme it leaves behind, so every transmission is judged against the URL it was made for; when the first transmission never reached a peer (dead pooled connection) the executing HostClient's kind is taken from the setup, and under LBClient such calls are not judged for acceptance")
 	n := r.N(4_000, 250_000)
 	const block = 32
 	blocks := (n + block - 1) / block
-	mon.Parallel(blocks, 0, func(bi int) {
-		acc := map[string]int{}
-		ev := func(name string, k int) { acc[name] += k }
-		for q := 0; q < block; q++ {
-			i := bi*block + q
-			if i >= n || !r.Want(i) {
-				continue
-			}
+	// Two phases. fasthttp recycles its connection wrappers through one process-wide pool, so a wrapper that a
+	// broken pool hands out twice would otherwise surface in whichever case happens to run next to it (or crash
+	// that case's background cleaner). The pool cases therefore run afterwards, one at a time.
+	var poolMu sync.Mutex
+	var poolCases []int
+	runOne := func(i int, ev func(string, int), phase int) {
+		{
 			c := genCase(newMix(r.Seed(), i), i)
-			out := runCase(c, srvCfg)
+			if (c.Mode == "pool") != (phase == 2) {
+				if phase == 1 {
+					poolMu.Lock()
+					poolCases = append(poolCases, i)
+					poolMu.Unlock()
+				}
+				return
+			}
+			out := runCase(c, pk)
 			if out.Hung {
 				r.Inconclusive(fmt.Sprintf("case %d: watchdog fired\n%s", i, mon.Stacks()))
-				continue
+				return
 			}
 			nt := nontrivial(c)
 			r.Case(classOf(c), nt)
@@ -1014,10 +1317,27 @@ func TestC21(t *testing.T) {
 				r.Violation(i, v.key, v.what, map[string]any{"setup": c, "observed": out})
 			}
 		}
+	}
+	mon.Parallel(blocks, 0, func(bi int) {
+		acc := map[string]int{}
+		ev := func(name string, k int) { acc[name] += k }
+		for q := 0; q < block; q++ {
+			i := bi*block + q
+			if i >= n || !r.Want(i) {
+				continue
+			}
+			runOne(i, ev, 1)
+		}
 		for name, k := range acc {
 			r.Event(name, k)
 		}
 	})
+	time.Sleep(300 * time.Millisecond) // lets the short-lived cleaners of phase 1 finish
+	sort.Ints(poolCases)
+	for _, i := range poolCases {
+		runOne(i, r.Event, 2)
+	}
+	r.Set("pool_cases_run_one_at_a_time", len(poolCases))
 	if !r.Replaying() {
 		r.Require("https_requests_seen_inside_tls", n)
 		r.Require("http_requests_seen_in_plaintext", n)
@@ -1027,6 +1347,12 @@ func TestC21(t *testing.T) {
 		r.Require("lbclient_refused_by_mismatching_hostclient", n/50)
 		r.Require("lbclient_delivered", n/50)
 		r.Require("tls_records_checked", 4*n)
+		r.Require("client_hellos_naming_the_dialled_host", n)
+		r.Require("tls_sessions_with_certificate_verification", n/2)
+		r.Require("bursts_leaving_two_or_more_connections_idle", n/20)
+		r.Require("pool_calls_ok", n/2)
+		r.Require("dial_failures_injected", n/10)
+		r.Require("multiaddr_calls_ok_after_failed_dials", n/20)
 		r.Require("tls_sessions_with_eager_handshake", n/4)
 		r.Require("retry_callback_invocations", n/4)
 		r.Require("retry_scheme_mismatch_refused", n/20)
